@@ -228,6 +228,10 @@ def run(ck):
                 for i in range(n)]
     for r in core.pmap("vf.props.c08:work", payloads, timeout=3400):
         ck.merge(r)
+    if ck.tier == "thorough":
+        from vf.props import infer
+
+        infer.suite_as_workload(ck, "C08")
     have = ck.sets.get("kinds_encoded", set())
     for kd in ("defaultdict", "type", "iterator", "callable", "empty_tuple", "td", "td_optional", "td_under_list", "td_under_dict",
                "td_under_tuple", "td_under_td", "union", "nested_class", "type_of_none", "set"):
